@@ -912,9 +912,37 @@ fn check_c12(cases: &[Case], results: &[Option<RunResult>]) -> Vec<Violation> {
             continue;
         }
         // the HTML parser drops a newline that immediately follows <pre>
-        let src0 = &c.meta.strs()[0];
-        let src: &str = src0.strip_prefix('\n').unwrap_or(src0);
-        let prefix = c.meta.nums()[0] as usize;
+        // corpus cases carry no generator metadata: take the text of the <pre> from the DOM
+        // (there the parser has already dropped the first newline)
+        let (src_owned, prefix): (String, usize) = if c.meta.nums().is_empty() {
+            let dom = dom_of(r);
+            let mut txt = String::new();
+            let mut pfx = 0usize;
+            fn find(n: &DNode, depth_pfx: usize, txt: &mut String, pfx: &mut usize) {
+                if let DNode::El { kids, .. } = n {
+                    if n.is("pre") {
+                        fn all_text(n: &DNode, o: &mut String) {
+                            match n {
+                                DNode::Text(t) => o.push_str(t),
+                                DNode::El { kids, .. } => kids.iter().for_each(|k| all_text(k, o)),
+                                _ => {}
+                            }
+                        }
+                        all_text(n, txt);
+                        *pfx = depth_pfx;
+                        return;
+                    }
+                    let d = if n.is("li") || n.is("blockquote") { depth_pfx + 2 } else { depth_pfx };
+                    kids.iter().for_each(|k| find(k, d, txt, pfx));
+                }
+            }
+            dom.iter().for_each(|n| find(n, 0, &mut txt, &mut pfx));
+            (txt, pfx)
+        } else {
+            let src0 = &c.meta.strs()[0];
+            (src0.strip_prefix('\n').unwrap_or(src0).to_string(), c.meta.nums()[0] as usize)
+        };
+        let src: &str = &src_owned;
         let got = match out_lines(&r.outcome) {
             Some(l) => l,
             None => continue,
@@ -954,28 +982,93 @@ fn check_c12(cases: &[Case], results: &[Option<RunResult>]) -> Vec<Violation> {
                 v.push(viol(i, "piece of a cut preformatted line wider than the available width", String::new(), None));
             }
         }
-        // tags: first piece Pre(false), continuation pieces Pre(true)
+        // tags: the first piece of every source line Preformat(false), the overflow pieces
+        // Preformat(true).  Blank lines carry no tagged text, so the non-blank source lines are
+        // matched against runs of non-blank output lines by their non-space characters.
         if let Outcome::Lines(ls) = &r.outcome {
-            if prefix == 0 {
-                // a source line that fits entirely must be tagged Pre(false) throughout
-                let mut li = 0usize;
-                for sl in &src_lines {
-                    if li >= ls.len() {
-                        break;
+            let pre_of = |t: &Vec<Ann>| t.iter().find_map(|a| if let Ann::Pre(b) = a { Some(*b) } else { None });
+            // per output line: the Pre-tagged elements (the list/quote prefix carries no Pre tag)
+            let out: Vec<Vec<(&str, bool)>> = ls
+                .iter()
+                .map(|l| l.iter().filter_map(|e| if let Elem::Str(s, t) = e { pre_of(t).map(|b| (s.as_str(), b)) } else { None }).collect::<Vec<_>>())
+                .filter(|l: &Vec<(&str, bool)>| l.iter().any(|(s, _)| !s.trim().is_empty()))
+                .collect();
+            let mut oi = 0usize;
+            let mut kf: Option<Violation> = None;
+            'lines: for sl in src_lines.iter().filter(|l| !l.trim().is_empty()) {
+                let ns = nonspace(sl);
+                let lead_ws = str_width(&sl.chars().take_while(|c| c.is_whitespace()).collect::<String>());
+                let mut acc = String::new();
+                // leading spaces followed by a word that does not fit beside them: the spaces are
+                // emitted as a (blank) first piece and the word starts the second one
+                let first_word_w = str_width(&sl.trim_start().chars().take_while(|c| !c.is_whitespace()).collect::<String>());
+                let mut k = if lead_ws > 0 && lead_ws < avail && lead_ws + first_word_w > avail { 1usize } else { 0 };
+                while acc != ns {
+                    if oi >= out.len() || acc.len() > ns.len() {
+                        break 'lines; // conservation is judged above
                     }
-                    if str_width(sl) <= avail {
-                        for e in &ls[li] {
-                            if let Elem::Str(s, t) = e {
-                                if !s.trim().is_empty() && t.last() != Some(&Ann::Pre(false)) {
-                                    v.push(viol(i, "unwrapped preformatted line not tagged Preformat(false)", format!("{:?}", e), None));
+                    let piece = &out[oi];
+                    let want_cont = k > 0;
+                    // a source line whose leading spaces alone fill the width: the dropped blank
+                    // piece may or may not count as the first piece
+                    let lenient = k == 0 && lead_ws >= avail;
+                    if !lenient {
+                        let bad = piece.iter().position(|(s, b)| !s.trim().is_empty() && *b != want_cont);
+                        if let Some(_) = bad {
+                            // known shape: a word that began before the overflow column and was then
+                            // moved whole to the next piece keeps Preformat(false) on its first characters
+                            let mut known = None;
+                            if want_cont && !piece[0].0.starts_with(char::is_whitespace) {
+                                let stop = piece.iter().position(|(s, b)| *b || s.chars().any(|c| c.is_whitespace())).unwrap_or(piece.len());
+                                let later_false = piece.iter().enumerate().any(|(j, (s, b))| j >= stop && !*b && !s.trim().is_empty());
+                                // the piece starts at a source word boundary
+                                let before = acc.chars().count();
+                                let mut cnt = 0usize;
+                                let mut prev_ws = true;
+                                let mut at_boundary = false;
+                                for ch in sl.chars() {
+                                    if ch.is_whitespace() {
+                                        prev_ws = true;
+                                        continue;
+                                    }
+                                    if cnt == before {
+                                        at_boundary = prev_ws;
+                                        break;
+                                    }
+                                    cnt += 1;
+                                    prev_ws = false;
+                                }
+                                if !later_false && at_boundary {
+                                    known = Some("pre_moved_word_first_tag");
                                 }
                             }
+                            let vi = viol(
+                                i,
+                                if want_cont { "overflow piece of a preformatted line not tagged Preformat(true)" } else { "first piece of a preformatted line not tagged Preformat(false)" },
+                                format!("source line {:?} piece {} = {:?}", sl, k, piece),
+                                known,
+                            );
+                            if known.is_some() {
+                                // keep judging the remaining pieces; report the known shape once
+                                if kf.is_none() {
+                                    kf = Some(vi);
+                                }
+                            } else {
+                                kf = None;
+                                v.push(vi);
+                                break 'lines;
+                            }
                         }
-                        li += 1;
-                    } else {
-                        break; // after the first cut line the line correspondence is lost
                     }
+                    for (s, _) in piece {
+                        acc.push_str(&nonspace(s));
+                    }
+                    oi += 1;
+                    k += 1;
                 }
+            }
+            if let Some(vi) = kf {
+                v.push(vi);
             }
         }
     }
@@ -1064,7 +1157,7 @@ fn c03_known(dom: &[DNode]) -> Option<&'static str> {
             if (p.is("ol") || p.is("dl")) && matches!(n, DNode::El { .. }) && !item_ok && vis_count(n) > 0 {
                 k = Some("loose_text_in_list_or_table");
             }
-            if (p.is("tr") && !(n.is("td") || n.is("th"))) || ((p.is("tbody") || p.is("thead") || p.is("table")) && !(n.is("tr") || n.is("tbody") || n.is("thead"))) {
+            if (p.is("tr") && !(n.is("td") || n.is("th"))) || ((p.is("tbody") || p.is("thead") || p.is("table")) && !(n.is("tr") || n.is("tbody") || n.is("thead") || n.is("tfoot") || n.is("caption"))) {
                 if vis_count(n) > 0 {
                     k = Some("loose_text_in_list_or_table");
                 }
@@ -1095,7 +1188,7 @@ fn check_c03(cases: &[Case], results: &[Option<RunResult>]) -> Vec<Violation> {
             None => continue,
         };
         let dom = dom_of(r);
-        let vis: Vec<char> = visible_chars(&dom);
+        let vis: Vec<char> = visible_chars_strict(&dom);
         let has_table = has_element(&dom, &["table"]);
         let borders = has_table && c.spec.cfg.raw == 0 && !c.spec.cfg.no_borders;
         let visset: HashSet<char> = vis.iter().copied().collect();
@@ -1182,7 +1275,8 @@ fn check_model_c03(i: usize, c: &Case, r: &RunResult, mo: &Outcome, labels: &Vec
                         *k += av.len() as u64;
                     }
                     let sk = skip || (html && ["head", "script", "style", "link", "meta", "hr", "template"].contains(&name.as_str()));
-                    if html && name == "img" && !sk && has_src {
+                    let _ = has_src;
+                    if html && name == "img" && !sk {
                         for (code, lab) in &alt {
                             if vis(*code) {
                                 expected.push(*lab);
